@@ -40,7 +40,8 @@ func init() {
 	Register(&Prop{
 		ID:    "C03",
 		Title: "GROUP BY partitions rows; aggregates cover exactly their group and honour WHERE",
-		Rule: "rapid draws a table with 1-3 low-cardinality grouping columns (strings incl. several spellings of one number and blanks / numbers, also as native Go types and as int64 / uint64 beyond 2^53 / NULL or missing keys) and 2-3 numeric value " +
+		Rule: "[Dimensions added in rounds p-r of the seeded-defect evaluation: a seventh of the cases group by 4-6 columns; large tables reach 2600 rows and up to 1300 groups (round-robin keys, rows arriving after the last new group, the spread column among the grouping columns); an aggregate may be shown under the name of its own argument column; a sixth of the enveloped cases run after 1-3 failing statements.] " +
+			"rapid draws a table with 1-3 low-cardinality grouping columns (strings incl. several spellings of one number and blanks / numbers, also as native Go types and as int64 / uint64 beyond 2^53 / NULL or missing keys) and 2-3 numeric value " +
 			"columns (some nullable), 0-10 rows (about 4% of the cases: 200-700 rows built from the drawn rows in a drawn arrangement, one grouping column spread over 2-400 distinct keys in a drawn order of first appearance), and a query of shape group (GROUP BY with keys, 1-5 aggregates incl. the same function on " +
 			"different columns, optional *, WHERE, HAVING with aggregates under comparisons, [NOT] BETWEEN, IS [NOT] NULL, [NOT] IN, unary minus and arithmetic), whole (all-aggregate list without GROUP BY, with/without WHERE, incl. empty input) or " +
 			"groupagg (all-aggregate list with GROUP BY), a quarter of them with a trailing LIMIT n >= 1 (which only trims the output sequence); oracle = reference grouping in first-appearance order (sequence equality), three " +
